@@ -56,6 +56,7 @@ type Contract struct {
 	Asserts    []*Clause       // assert call=NAME#N label: expr  (checked right before the N-th call of NAME in source order)
 	CallKeeps  map[string][]*Expr // callkeeps NAME e1 ; e2: memory regions an unmodelled callee NAME leaves unchanged (assumption)
 	CallKeepSrc map[string][]string
+	CallEnsures map[string][]*Clause // callensures NAME [label:] expr: assumed about the results (result0..) and arguments (arg0..) of an unmodelled callee
 	Notes      []string
 	Replay     string // "auto" | "none" | template name
 	Timeout    int
@@ -261,7 +262,7 @@ func ParseContractFile(path, pkg string) (*ContractFile, error) {
 			if fn, v, ok := strings.Cut(rest, " as "); ok {
 				rest, variant = strings.TrimSpace(fn), strings.TrimSpace(v)
 			}
-			cur = &Contract{File: path, Line: linenos[i], Pkg: pkg, Name: rest, Variant: variant, Pure: map[string]bool{}, FnSpecs: map[string]string{}, Unroll: map[int]int{}, Opaque: map[string]bool{}, Hide: map[string]bool{}, CallKeeps: map[string][]*Expr{}, CallKeepSrc: map[string][]string{}, Replay: "auto"}
+			cur = &Contract{File: path, Line: linenos[i], Pkg: pkg, Name: rest, Variant: variant, Pure: map[string]bool{}, FnSpecs: map[string]string{}, Unroll: map[int]int{}, Opaque: map[string]bool{}, Hide: map[string]bool{}, CallKeeps: map[string][]*Expr{}, CallKeepSrc: map[string][]string{}, CallEnsures: map[string][]*Clause{}, Replay: "auto"}
 			cf.Contracts = append(cf.Contracts, cur)
 			lem = nil
 		case "lemma":
@@ -428,6 +429,16 @@ func ParseContractFile(path, pkg string) (*ContractFile, error) {
 				c.E = e
 				c.Kind = "assert:" + m[1]
 				cur.Asserts = append(cur.Asserts, c)
+			case "callensures":
+				name, ex, _ := strings.Cut(rest, " ")
+				saved := rest
+				rest = strings.TrimSpace(ex)
+				c, err := mkClause("callensures", false)
+				rest = saved
+				if err != nil {
+					return nil, err
+				}
+				cur.CallEnsures[name] = append(cur.CallEnsures[name], c)
 			case "keepsall":
 				// regions (over the parameters) that no unmodelled callee changes (assumption)
 				for _, es := range strings.Split(rest, ";") {
